@@ -290,6 +290,27 @@ def gen_keys(src):
     ]
 
 
+def gen_ctors(src):
+    """`new`, `new_from_lsb` (the `NonZero::new` guard in front of the identity / `from_lsb`) and `clear`"""
+    want = {
+        "new": "matchNonZero::new(value){Some(value)=>Some(Self(value)),None=>None,}",
+        "new_from_lsb": "matchNonZero::new(value){Some(value)=>Some(Self::from_lsb(value)),None=>None,}",
+        "clear": "*self=Self::EMPTY;",
+    }
+    for name, w in want.items():
+        _sig, body = fn_body(src, name)
+        if re.sub(r"\s+", "", body) != w:
+            raise Unsupported(f"{name}: body {body!r}")
+    return [
+        "/-- `Packed::new`: `None` exactly for zero -/",
+        "def new_ (value : BitVec 64) : Option (BitVec 64) := if value = 0 then none else some value\n",
+        "/-- `Packed::new_from_lsb`: `None` exactly for zero, otherwise `from_lsb` -/",
+        "def newFromLsb (value : BitVec 64) : Option (BitVec 64) := if value = 0 then none else some (fromLsb value)\n",
+        "/-- `Packed::clear` -/",
+        "def clear (self : BitVec 64) : BitVec 64 := EMPTY\n",
+    ]
+
+
 def generate(path):
     src = strip_comments(open(path).read())
     # cut the test module
@@ -313,6 +334,7 @@ def generate(path):
     lines += gen_new_map(src, "pop_msb", "popMsb", ["self", "bits"])
     lines += gen_new_map(src, "push_lsb", "pushLsb", ["self", "bits", "value"])
     lines += gen_keys(src)
+    lines += gen_ctors(src)
     lines.append("end MiniconfVerif.Gen.Packed")
     return "\n".join(lines) + "\n"
 
